@@ -24,8 +24,8 @@ type outTok struct {
 }
 
 type monC05 struct {
-	cnf, rec map[string]*outTok // pid -> outstanding token
-	seenC, seenR map[string]int  // how many mailed tokens of each account were already folded into the model
+	cnf, rec     map[string]*outTok // pid -> outstanding token
+	seenC, seenR map[string]int     // how many mailed tokens of each account were already folded into the model
 }
 
 func (c *monC05) Init(m *Machine) {
